@@ -62,7 +62,12 @@ def gen_fixed(rng, nmax):
         cps = sorted(rng.sample(range(1, n), rng.randint(130, min(n - 1, 400))))
     lo = Fraction(rng.randint(-8, 4), 4)
     hi = lo + Fraction(rng.randint(0, 12), 4)
-    return {"n": n, "cps": cps, "X": [rng.randint(-3, 3) for _ in range(n)], "stat": rng.choice(list(STATS)),
+    inf = rng.choice([None, None, None, None, None, "lo", "hi", "both"])  # one-sided / unbounded ranges: an infinite bound is legal
+    if inf in ("lo", "both"):
+        lo = Fraction(-10**9)  # (the model and the oracle see a bound far below every statistic; the implementation sees -inf)
+    if inf in ("hi", "both"):
+        hi = Fraction(10**9)
+    return {"n": n, "cps": cps, "X": [rng.randint(-3, 3) for _ in range(n)], "stat": rng.choice(list(STATS)), "inf": inf,
             "lo": str(lo), "hi": str(hi), "container": rng.choice(["frame", "series", "array", "array1d", "offset-index", "datetime"])}
 
 
@@ -96,6 +101,10 @@ def impl_fixed(c):
             lo, hi = (int(lo) if lo == int(lo) else lo), (int(hi) if hi == int(hi) else hi)
         elif form == 2:
             lo, hi = np.float64(lo), np.float64(hi)
+        if c.get("inf") in ("lo", "both"):
+            lo = -np.inf if form else -float("inf")
+        if c.get("inf") in ("hi", "both"):
+            hi = np.inf if form else float("inf")
         det = StatThresholdAnomaliser(user, stat=STATS[c["stat"]], stat_lower=lo, stat_upper=hi)
         y = det.fit(X).predict(X)
         an = [(int(i.left), int(i.right)) for i in y["ilocs"]]
